@@ -479,13 +479,13 @@ where
     ) -> (TrackDistanceOk<OA>, TrackDistanceErr<OA>) {
         let tracks_vec = self.fetch_tracks(tracks);
 
-        let res = self.foreign_track_distances(tracks_vec.clone(), feature_class, only_baked);
-
-        for t in tracks_vec {
+        // the tracks are put back before the distance commands are queued, so that a worker
+        // never scans a shard from which the queried tracks are still missing
+        for t in tracks_vec.iter().cloned() {
             self.add_track(t).unwrap();
         }
 
-        res
+        self.foreign_track_distances(tracks_vec, feature_class, only_baked)
     }
 
     /// returns the store shard for id
